@@ -214,6 +214,28 @@ func derived3(full bool) []leaf3 {
 			sel = append(sel, s)
 		}
 	}
+	// thin shapes with outsets larger than their own half thickness (and insets that swallow them): the box of the
+	// wrapper must grow by the full outset on every axis
+	for _, s := range []ref.Shape3{
+		ref.Rect(model3d.XYZ(-2, -1.5, -0.125), model3d.XYZ(2, 1.5, 0.125)),
+		ref.Rect(model3d.XYZ(0.5, 0.5, 0.5), model3d.XYZ(0.6, 0.7, 3.5)),
+		ref.Sphere(model3d.XYZ(1, -2, 0.5), 0.1),
+		ref.Capsule(model3d.XYZ(0, 0, 0), model3d.XYZ(0.05, 0, 0), 0.05),
+	} {
+		s := s
+		obj := s.Obj.(sdfSolid)
+		band := 1e-7 * (s.Extent + 1)
+		for _, in := range []float64{-0.5, -2, 0.04} {
+			add(fmt.Sprintf("NewColliderSolidInset(%s,%g)", s.Name, in), model3d.NewColliderSolidInset(obj, in), sdfRef(s.SDF, in, band))
+		}
+		for _, rad := range []float64{0.5, 2} {
+			rad := rad
+			add(fmt.Sprintf("NewColliderSolidHollow(%s,%g)", s.Name, rad), model3d.NewColliderSolidHollow(obj, rad), func(p c3) (bool, bool) {
+				d := math.Abs(s.SDF(p))
+				return d < rad, !(math.Abs(d-rad) <= band)
+			})
+		}
+	}
 	for _, s := range sel {
 		s := s
 		obj := s.Obj.(sdfSolid)
